@@ -1234,6 +1234,11 @@ func (p *partition) messageProcessingLoop(recvChan <-chan *nats.Msg, stop <-chan
 			p.sendTooLargeNack(m)
 			continue
 		}
+		// Reject messages that cannot be written to the log.
+		if err := m.Validate(); err != nil {
+			p.sendInvalidNack(m, err)
+			continue
+		}
 		msgBatch = append(msgBatch, m)
 		remaining := batchSize - 1
 
@@ -1276,6 +1281,10 @@ func (p *partition) messageProcessingLoop(recvChan <-chan *nats.Msg, stop <-chan
 					p.sendTooLargeNack(m)
 					continue batchLoop
 				}
+				if err := m.Validate(); err != nil {
+					p.sendInvalidNack(m, err)
+					continue batchLoop
+				}
 				msgBatch = append(msgBatch, m)
 				remaining--
 			default:
@@ -1310,6 +1319,10 @@ func (p *partition) messageProcessingLoop(recvChan <-chan *nats.Msg, stop <-chan
 					}
 					if int64(len(msg.Data)) > p.srv.config.Clustering.ReplicationMaxBytes {
 						p.sendTooLargeNack(m)
+						continue batchLoop
+					}
+					if err := m.Validate(); err != nil {
+						p.sendInvalidNack(m, err)
 						continue batchLoop
 					}
 					msgBatch = append(msgBatch, m)
@@ -1554,6 +1567,25 @@ func (p *partition) sendTooLargeNack(msg *commitlog.Message) {
 	if err := p.srv.ncAcks.Publish(ack.AckInbox, data); err != nil {
 		p.srv.logger.Errorf("Error sending ack for partition %s: %v", p, err)
 	}
+}
+
+// sendInvalidNack publishes an ack containing an error indicating the message
+// cannot be written to the log, e.g. because a header key is too long, to the
+// specified AckInbox. If no AckInbox is set, this does nothing.
+func (p *partition) sendInvalidNack(msg *commitlog.Message, err error) {
+	p.srv.logger.Errorf(
+		"Rejecting message received on partition %s that cannot be written to the log: %v",
+		p, err)
+	p.sendAck(&client.Ack{
+		Stream:             p.Stream,
+		PartitionSubject:   p.Subject,
+		MsgSubject:         string(msg.Headers["subject"]),
+		AckInbox:           msg.AckInbox,
+		CorrelationId:      msg.CorrelationID,
+		AckPolicy:          msg.AckPolicy,
+		ReceptionTimestamp: msg.Timestamp,
+		AckError:           client.Ack_TOO_LARGE,
+	})
 }
 
 // replicationRequestLoop is a long-running loop which sends replication
